@@ -176,7 +176,7 @@ func (se *subscriptionEntry) Listen(conn net.Conn) {
 		defer se.Unlock()
 		verifhook.At("se.Listen.beforeCloseChannels")
 		close(se.queryerCloseCh)
-		close(se.respCh)
+		// respCh stays open: the upstream reader may be about to send on it, it gives up on queryerCloseCh
 		se.isClosed = true
 		verifhook.At("se.Listen.closed")
 	}()
